@@ -389,9 +389,16 @@ def _predict_guards(repo):
                     and st.value.args and ast.unparse(st.value.args[0]) == "self":
                 return True
             val = st.value if isinstance(st, (ast.Assign, ast.Return, ast.Expr)) else None
-            if isinstance(val, ast.Call) and isinstance(val.func, ast.Attribute) and ast.unparse(val.func.value) == "self" \
-                    and not any(isinstance(c, ast.Call) for a in list(val.args) + [k.value for k in val.keywords] for c in ast.walk(a)):
-                return guarded(val.func.attr, seen + (name,))
+            # `self.a(self.b(self.c(X)))`: the call executed first is the innermost one (`self.a` / `self.b` are attribute
+            # reads; arguments are evaluated left to right, so the first argument that contains a call decides)
+            while isinstance(val, ast.Call) and not any(isinstance(c, ast.Call) for c in ast.walk(val.func)):
+                inner = [a for a in list(val.args) + [k.value for k in val.keywords]
+                         if any(isinstance(c, ast.Call) for c in ast.walk(a))]
+                if not inner:
+                    if isinstance(val.func, ast.Attribute) and ast.unparse(val.func.value) == "self":
+                        return guarded(val.func.attr, seen + (name,))
+                    return False
+                val = inner[0]
             return False
         found = [m for m in PREDICT_LIKE if m in methods]
         if not found:
@@ -502,7 +509,8 @@ def validation_tables(repo):
     er = _parse(repo, "fairlearn/reductions/_moments/error_rate.py")
     gs = _parse(repo, "fairlearn/reductions/_grid_search/grid_search.py")
 
-    simple = _strdict(_assign(to, "SIMPLE_CONSTRAINTS"), "SIMPLE_CONSTRAINTS")
+    from .threshold import pinned_dict_order      # entry order of the dict is not observable: same mapping, pinned order
+    simple = pinned_dict_order(_strdict(_assign(to, "SIMPLE_CONSTRAINTS"), "SIMPLE_CONSTRAINTS"))
     obj_s = _strset(_assign(to, "OBJECTIVES_FOR_SIMPLE_CONSTRAINTS"), "OBJECTIVES_FOR_SIMPLE_CONSTRAINTS")
     obj_e = _strset(_assign(to, "OBJECTIVES_FOR_EQUALIZED_ODDS"), "OBJECTIVES_FOR_EQUALIZED_ODDS")
     md = _assign(tc, "METRIC_DICT")
